@@ -450,7 +450,7 @@ Subscribe0(h, t, o) ==
     [] t.op = "from_iter_endless" -> RepeatLoop(h, o, t.a)      \* from_iter(iter::repeat(a)): poll, emit, poll, ... like repeat
     [] t.op = "defer" -> Subscribe(h, t.in[1], o)
     [] t.op = "subject" ->
-         IF h.sbj[t.a].kind = "async" THEN Subscribe(h, U("take_last", 1, "", Leaf("rawsubject", t.a)), o)   \* AsyncSubject::observable
+         IF h.sbj[t.a].kind = "async" THEN PlainSubscribe(h, t.a, o)   \* AsyncSubject::observable = its inner Subject's (fix: the subject owns its last item)
          ELSE SubjSubscribe(h, t.a, o)
     [] t.op = "rawsubject" -> PlainSubscribe(h, t.a, o)
     [] t.op = "conn" -> SubjSubscribe(h, h.conn[t.a].j, o)         \* Publish/RefCount/Replay::observable()
@@ -528,6 +528,7 @@ SubjNext(h, j, x) ==
   IF h.stuck # "" THEN h ELSE
   CASE h.sbj[j].kind = "behavior" -> PlainNext([Touch(h, Lk("last", j), "W") EXCEPT !.sbj[j].last = [has |-> TRUE, v |-> x]], j, x)
     [] h.sbj[j].kind = "replay" -> PlainNext([Touch(h, Lk("items", j), "W") EXCEPT !.sbj[j].items = Append(@, x)], j, x)
+    [] h.sbj[j].kind = "async" -> [Touch(h, Lk("last", j), "W") EXCEPT !.sbj[j].last = [has |-> TRUE, v |-> x]]      \* remembered, not forwarded
     [] OTHER -> PlainNext(h, j, x)
 SubjError(h, j, x) ==
   IF h.stuck # "" THEN h ELSE
@@ -538,6 +539,10 @@ SubjComplete(h, j) ==
   IF h.stuck # "" THEN h ELSE
   CASE h.sbj[j].kind = "behavior" -> PlainComplete([Touch(h, Lk("last", j), "W") EXCEPT !.sbj[j].last = [has |-> FALSE, v |-> 0]], j)
     [] h.sbj[j].kind = "replay" -> PlainComplete([Touch(h, Lk("wascompl", j), "W") EXCEPT !.sbj[j].completed = TRUE], j)
+    [] h.sbj[j].kind = "async" ->      \* the remembered item is taken out (write lock), handed to the current observers, then the completion
+         LET h1 == [Touch(h, Lk("last", j), "W") EXCEPT !.sbj[j].last = [has |-> FALSE, v |-> 0]]
+             h2 == IF h.sbj[j].last.has THEN PlainNext(h1, j, h.sbj[j].last.v) ELSE h1
+         IN IF h2.stuck # "" THEN h2 ELSE PlainComplete(h2, j)
     [] OTHER -> PlainComplete(h, j)
 PlainSubscribe(h, j, o) ==
   LET serial == h.sbj[j].serial + 1
